@@ -8885,6 +8885,46 @@ func ruleCroltTidOwn(w *World, r *Report) {
 			calls = append(calls, in)
 		}
 	})
+	// the service's other bookkeeping in the job record — `evict` (set by the work loop for a job that is done: `set`
+	// files such a job for eviction and `work` then evicts it without a request) and `work` (the outcome of the last
+	// request) — is not the requester's to give either: what /get returns for a one-shot job that has fired carries
+	// both, and a job posted from it was accepted and never fired
+	setFn := w.TryMethod("crolt", "Cron", "set")
+	for _, bk := range []struct{ field, zero string }{{"Evict", "false"}, {"Work", "nil"}} {
+		var clr ssa.Instruction
+		allInstrs(fn, func(in ssa.Instruction) {
+			st, ok := in.(*ssa.Store)
+			if !ok {
+				return
+			}
+			if _, f, _, okf := fieldOf(st.Addr); okf && f == bk.field {
+				if k, isK := st.Val.(*ssa.Const); isK && (k.Value == nil || (k.Value.Kind() == constant.Bool && !constant.BoolVal(k.Value))) {
+					clr = in
+				}
+			}
+		})
+		k2 := key + " field=" + bk.field
+		var first []ssa.Instruction
+		allInstrs(fn, func(in ssa.Instruction) {
+			if c := callOf(in); c != nil && c.StaticCallee() != nil && (c.StaticCallee() == upd || (setFn != nil && c.StaticCallee() == setFn)) {
+				first = append(first, in)
+			}
+		})
+		if len(first) == 0 {
+			continue
+		}
+		okAll := clr != nil
+		for _, c := range first {
+			if clr == nil || !instrDominates(clr, c) {
+				okAll = false
+			}
+		}
+		if okAll {
+			r.ok("CROLT-TID-OWN", k2, w.PosOf(clr), "a new job starts without the service's `"+strings.ToLower(bk.field)+"` bookkeeping")
+		} else {
+			r.violation("CROLT-TID-OWN", k2, w.PosOf(first[0]), "Add hands the job's `"+strings.ToLower(bk.field)+"` on as the request gave it: a job posted from what /get gave for a one-shot job that has fired is accepted, filed for eviction and never fires")
+		}
+	}
 	switch {
 	case len(calls) == 0:
 		r.exempt("CROLT-TID-OWN", key, w.Pos(fn.Pos()), "Add does not call update: shape not recognised, not decided")
